@@ -119,7 +119,7 @@ Next == Loop \/ Stutter
 Spec == Init /\ [][Next]_mcvars /\ WF_mcvars(Loop)
 
 ----------------------------------------------------------------------------
-MC_C01 == C01_NoOversub(MCW, S) /\ C01_LedgerAgrees(MCW, S) /\ C01_SingleWorker(S) /\ C01_AvRange(MCW, S)
+MC_C01 == C01_NoOversub(MCW, S) /\ C01_LedgerAgrees(MCW, S) /\ C01_Backed(MCW, S) /\ C01_SingleWorker(S) /\ C01_AvRange(MCW, S)
 MC_C02 == C02_StartedProperly(S)
 MC_C03 == C03_HoldUntilDue(S) /\ C03_CompletedTiming(S) /\ C03_ExactCompletion(MCW, S) /\ C03_NotBeforePlan(S)
 MC_C04 == C04_IdleMeansFull(MCW, S)
